@@ -275,6 +275,16 @@ impl Model {
         let mut seen_tags = BTreeSet::new();
         let mut seen_acks = BTreeSet::new();
         let mut fresh_seen: Vec<String> = Vec::new();
+        // indexes over the state before this response (each tag is handled once)
+        let (fresh_set, lease_by_tag): (HashSet<String>, std::collections::HashMap<String, String>) = {
+            let s = self.subs.get(sub).unwrap();
+            if items.len() > 8 {
+                (s.fresh.iter().cloned().collect(), s.leases.iter().map(|(k, l)| (l.tag.clone(), k.clone())).collect())
+            } else {
+                (HashSet::new(), std::collections::HashMap::new())
+            }
+        };
+        let indexed = items.len() > 8;
         for (ack_id, tag, _msg_id) in items {
             let s = self.subs.get(sub).unwrap();
             if !seen_acks.insert(ack_id.clone()) || s.used_ack_ids.contains(ack_id) {
@@ -285,10 +295,14 @@ impl Model {
                 continue;
             }
             let s = self.subs.get(sub).unwrap();
-            let in_fresh = s.fresh.contains(tag);
+            let in_fresh = if indexed { fresh_set.contains(tag) } else { s.fresh.contains(tag) };
             let in_req = s.requeued.contains_key(tag);
             let in_unc = s.uncertain.contains(tag);
-            let lease_key = s.leases.iter().find(|(_, l)| l.tag == *tag).map(|(k, l)| (k.clone(), l.clone()));
+            let lease_key = if indexed {
+                lease_by_tag.get(tag).and_then(|k| s.leases.get(k).map(|l| (k.clone(), l.clone())))
+            } else {
+                s.leases.iter().find(|(_, l)| l.tag == *tag).map(|(k, l)| (k.clone(), l.clone()))
+            };
             if in_fresh {
                 fresh_seen.push(tag.clone());
             } else if in_req || in_unc {
@@ -334,8 +348,9 @@ impl Model {
         let s = self.subs.get_mut(sub).unwrap();
         let prefix: Vec<String> = s.fresh.iter().take(fresh_seen.len()).cloned().collect();
         if prefix != fresh_seen {
-            let d = format!("first deliveries {:?} but acceptance order is {:?}", fresh_seen, prefix);
-            s.fresh.retain(|t| !fresh_seen.contains(t));
+            let d = format!("first deliveries {:?} but acceptance order is {:?}", fresh_seen.iter().take(12).collect::<Vec<_>>(), prefix.iter().take(12).collect::<Vec<_>>());
+            let gone: HashSet<&String> = fresh_seen.iter().collect();
+            s.fresh.retain(|t| !gone.contains(t));
             self.flag("C08", "C08:O1:first-delivery-order", d);
         } else {
             for _ in 0..fresh_seen.len() {
